@@ -654,6 +654,14 @@ pub fn run(ctx: &Ctx) -> Outcome {
         per.push(json!({"scenario": s.name(), "depth": depth, "states": st.states, "transitions": st.transitions, "depth_completed": st.depth_completed}));
         total.merge(&st);
     }
+    // the Have path with a choice (borrowed from C12): record, reservation, request and completion
+    // must speak of the piece the manager chose, what is owned or announced must be stored
+    {
+        let (s, depth) = crate::c12::have_path_scenario(ctx.tier == core::Tier::Thorough);
+        let st = explore::bfs(ctx, &s, depth, ctx.tier.pick(50, 25));
+        per.push(json!({"scenario": Scenario::name(&s), "depth": depth, "states": st.states, "transitions": st.transitions, "depth_completed": st.depth_completed}));
+        total.merge(&st);
+    }
     // the peer chokes (at most twice) in the middle of a piece; blocks in flight arrive behind the Choke
     for len in ctx.tier.pick(vec![40000usize], vec![40000usize, 16385, 65541]) {
         let s = TilingChoke { len };
@@ -685,6 +693,14 @@ pub fn replay(_ctx: &Ctx, r: &Value) -> i32 {
         return 1;
     }
     let name = r["scenario"].as_str().unwrap();
+    if name.starts_with("resv-") {
+        for thorough in [false, true] {
+            let (s, _) = crate::c12::have_path_scenario(thorough);
+            if Scenario::name(&s) == name {
+                return explore::replay_verbose(&s, &explore::hist_from_json(&r["history"]), "C10");
+            }
+        }
+    }
     if let Some(len) = name.strip_prefix("tiling-choke-") {
         return explore::replay_verbose(&TilingChoke { len: len.parse().unwrap() }, &explore::hist_from_json(&r["history"]), "C10");
     }
